@@ -8,7 +8,7 @@
    Imports only GoSem, GenLeaf and the hand models (NOT GenLeafProofs). *)
 (* PREAMBLE *)
 From Coq Require Import ZArith Bool List.
-From Arsenal Require Import Util Gran Tlsf Pass GoSem GenLeaf.
+From Arsenal Require Import Util Gran Tlsf Pass Linear SyncMem GoSem GenLeaf.
 Import ListNotations.
 Open Scope Z_scope.
 
@@ -216,4 +216,37 @@ Definition diff_incrementCounters :=
                   [0; 1; 2; 4; 5; 6]) [0; 1; 2; 99; 100; 900; 1000; 1001]).
 (* CHECK *)
 Example sweep_incrementCounters : diff_incrementCounters = None. Proof. vm_compute. reflexivity. Qed.
+
+(* FUNC blocksOnSamePage *)
+Definition diff_blocksOnSamePage :=
+  first_diff (fun '(o1, s1, o2, pg) => [o1; s1; o2; pg]) (outcome_eqb Bool.eqb unit_eqb)
+    (fun '(o1, s1, o2, pg) => (- 2 ^ 63 <? o1 + s1) && (o1 + s1 <? 2 ^ 63) && (- 2 ^ 63 <? pg) && (pg <=? 2 ^ 63))
+    (fun '(o1, s1, o2, pg) => GenLeaf.blocksOnSamePage o1 s1 o2 pg)
+    (fun '(o1, s1, o2, pg) => match blocks_on_same_page o1 s1 o2 pg with Some b => Ret b | None => Panic tt end)
+    (prod2 (prod2 (prod2 [0; 1; 255; 256; 257; 1000; 1023; 1024; 65536; 2 ^ 39] [- 1; 0; 1; 2; 255; 256; 257; 1024; 2 ^ 39])
+                  [0; 1; 255; 256; 257; 511; 512; 1023; 1024; 1025; 2047; 2048; 65536; 2 ^ 39; 2 ^ 40])
+           [- 1; 0; 1; 2; 3; 256; 512; 1024; 65536; 2 ^ 39]).
+(* CHECK *)
+Example sweep_blocksOnSamePage : diff_blocksOnSamePage = None. Proof. vm_compute. reflexivity. Qed.
+
+(* FUNC postMapUnmap *)
+Definition sm_eqb (a b : sm) : bool :=
+  (mapRefs a =? mapRefs b) && Bool.eqb (mapped a) (mapped b) && (delayCounter a =? delayCounter b)
+  && (statusCounter a =? statusCounter b) && Bool.eqb (extra a) (extra b) && Bool.eqb (freed a) (freed b).
+(* (result, delayCounter', statusCounter', extraMapping', frame) *)
+Definition quint_eqb (x y : bool * Z * Z * bool * bool) : bool :=
+  let '(a, b, c, d, e) := x in let '(a', b', c', d', e') := y in
+  Bool.eqb a a' && (b =? b') && (c =? c') && Bool.eqb d d' && Bool.eqb e e'.
+Definition diff_postMapUnmap :=
+  first_diff (fun '(d, st, ex) => [d; st; (if ex : bool then 1 else 0)]) quint_eqb (fun _ => true)
+    (fun '(d, st, ex) => (GenLeaf.postMapUnmap d st ex, true))
+    (fun '(d, st, ex) =>
+       let s := mkSm 5 true d st ex false in
+       let r := post_map_unmap s in
+       (snd r, delayCounter (fst r), statusCounter (fst r), extra (fst r),
+        sm_eqb (fst r) (set_extra (set_counters s (delayCounter (fst r)) (statusCounter (fst r))) (extra (fst r)))))
+    (prod2 (prod2 (zrange 0 9 ++ [2 ^ 32 - 2; 2 ^ 32 - 1])
+                  (zrange 0 4 ++ [- 1; - 2; - 3; 2 ^ 31 - 2; 2 ^ 31 - 1; - 2 ^ 31; - 2 ^ 31 + 1])) [false; true]).
+(* CHECK *)
+Example sweep_postMapUnmap : diff_postMapUnmap = None. Proof. vm_compute. reflexivity. Qed.
 (* END *)
